@@ -6,7 +6,7 @@
 (* The wires double as the input corpus of the relational explorations      *)
 (* (C01, C03, C05, C11, C12, C13, C19).                                     *)
 (***************************************************************************)
-EXTENDS Gen, TLC, Json
+EXTENDS Gen, SIPMsg, Props, TLC, Json
 
 CONSTANTS K,        \* number of header lines drawn from the pool (besides an optional Content-Length line)
           Part,     \* which slice of the product to enumerate: "hdrs" | "framing" | "caps"
@@ -113,4 +113,12 @@ Emit == LET m == Msg(c) IN
           /\ PrintT(ToJson([k |-> "msg", cfg |-> Cfg(m), wire |-> m.wire, cuts |-> <<Len(m.wire)>>,
                             offs |-> m.offs, err |-> m.err, obs |-> ObsFor(m),
                             src |-> (IF Prop = "corpus" THEN "gen" ELSE "decl"), prop |-> Prop]))
+\* Model level: the transcription (SIPMsg.tla) parses every generated message as the ghost intends (Auto = Decl on
+\* the generator's domain) and its observation satisfies the C05 predicate.
+AutoRun(m) == Msg_Call(m.wire, 0, Msg_New(Cfg(m)), Cfg(m))
+AutoEqDecl == LET m == Msg(c)  r == AutoRun(m) IN
+                /\ r.err = m.err /\ r.offs = m.offs
+                /\ (m.err = OK => /\ Msg_Obs(r.st).HL = m.obs.HL /\ Msg_Obs(r.st).Body = m.obs.Body
+                                  /\ Msg_Obs(r.st).RawMsg = m.obs.RawMsg)
+Nested == LET m == Msg(c)  r == AutoRun(m) IN r.err = OK => FieldsNested(m.wire, 0, r.offs, Msg_Obs(r.st))
 =============================================================================
